@@ -1,4 +1,3 @@
-(* WIP *)
 (* C32 — model of goroutines acquiring and releasing Go mutexes / RW mutexes, the lock table
    produced by the translator (harness/cmd/astx lockgraph -> Gen/LockGraph.v), the discipline
    (strictly increasing lock classes along every nesting), and its boolean checker.
@@ -161,9 +160,13 @@ Definition action_eqb (a b : action) : bool :=
 Definition site_ok (tbl : lock_table) (f : fname) (L : list ch) (a : action) : bool :=
   existsb (fun s => (s_fn s =? f) && action_eqb (s_act s) a && ch_subset L (s_held s)) tbl.
 
-Definition frame := (fname * list ch)%type.
+(* a stack frame: the function being executed and the lock instances acquired (and not yet
+   released) by this activation *)
+Definition frame := (fname * list hl)%type.
 
 (* [cl] maps a lock instance to its class *)
+Definition clm (cl : lock -> cls) (x : hl) : ch := (cl (fst x), snd x).
+
 Fixpoint conforms (cl : lock -> cls) (tbl : lock_table) (st : list frame) (es : list ev) : bool :=
   match es with
   | [] => match st with [(_, [])] => true | _ => false end
@@ -172,9 +175,10 @@ Fixpoint conforms (cl : lock -> cls) (tbl : lock_table) (st : list frame) (es : 
       | [] => false
       | (f, L) :: below =>
           match e with
-          | EAcq l m => site_ok tbl f L (Acquire (cl l) m) && conforms cl tbl ((f, (cl l, m) :: L) :: below) r
-          | ERel l m => ch_mem (cl l, m) L && conforms cl tbl ((f, ch_remove (cl l, m) L) :: below) r
-          | EEnter g => site_ok tbl f L (Call g) && conforms cl tbl ((g, []) :: st) r
+          | EAcq l m => site_ok tbl f (map (clm cl) L) (Acquire (cl l) m) &&
+                        conforms cl tbl ((f, (l, m) :: L) :: below) r
+          | ERel l m => memb (l, m) L && conforms cl tbl ((f, remove_one (l, m) L) :: below) r
+          | EEnter g => site_ok tbl f (map (clm cl) L) (Call g) && conforms cl tbl ((g, []) :: st) r
           | EExit => match L, below with
                      | [], _ :: _ => conforms cl tbl below r
                      | _, _ => false
